@@ -88,9 +88,9 @@ def parse_edit(line, unit, lineno):
     m = re.match(r"match_str (\d+)$", t)
     if m:
         return {"op": "match_str", "n": int(m.group(1))}
-    m = re.match(r"closure (\d+):\s*(.*)$", t, re.S)
+    m = re.match(r"closure (\d+)( opt)?:\s*(.*)$", t, re.S)
     if m:
-        return {"op": "closure", "n": int(m.group(1)), "header": m.group(2)}
+        return {"op": "closure", "n": int(m.group(1)), "opt": bool(m.group(2)), "header": m.group(3)}
     m = re.match(r"replace (\w+)(?: (x\d+|any|opt|@\d+))?:\s*(.*?)\s*==>\s*(.*)$", t, re.S)
     if m:
         e = {"op": "replace", "rule": m.group(1), "from": m.group(3), "to": m.group(4)}
